@@ -53,7 +53,9 @@ ASSUMPTIONS = [
     "widths of numeric (Unsigned) results are not documented and not compared; vector results must have the documented width",
     "select_batch is only fed one-hot selectors; clamp only low <= high; std.select only with keys of the argument's own "
     "type (select_with documents `arg in branches`, which settles nothing for int keys on an Unsigned argument)",
-    "first extremum wins is observed through min/max_element, min/max_index and through `key=` functions that ignore the lsb",
+    "first extremum wins is observed through min/max_element, min/max_index and through `key=` functions whose order "
+    "differs from the elements' own (ignore the lsb, low bits only, ~x, signed view), with the default or a reversed `cmp=`, "
+    "in the container and in the several-separate-arguments call form; oracle = left-to-right scan replacing on strict `cmp`",
     "the CRC register is a Signal: observed at plain-Python level only (Signal <<= takes effect immediately there); "
     "definition = remainder of message*x^n (+ init*x^len) modulo x^n+poly by long division",
     "level S: cv.vhdl is the trusted simulator; static errors of the emitted VHDL are blocked_by_static (owned by C06), "
@@ -80,6 +82,10 @@ def plan(tier):
     per = 17 if tier == "quick" else 150
     shards = [{"kind": "hyp", "name": f"h_{n}", "examples": max(6, int(per * _WEIGHT.get(n, 1.0))), "helper": n}
               for n in NAMES]
+    # stratum of its own: minimum / maximum called with several separate arguments and a key whose order differs
+    # from the elements' own (Hypothesis' sampled_from over the whole table reaches it 0-7 times in 25 draws)
+    shards.append({"kind": "hyp", "name": "h_minmax_args_key", "examples": 14 if tier == "quick" else 120,
+                   "helper": "minimum,maximum", "filter": "args_key"})
     if tier != "quick":
         shards = [{"kind": "enum", "name": f"all{i}", "part": i, "parts": 48} for i in range(48)] + shards
     return shards
@@ -95,9 +101,12 @@ def _configs(name):
 
 
 @st.composite
-def _case(draw, names):
+def _case(draw, names, filt=None):
     name = draw(st.sampled_from(names))
-    c = draw(st.sampled_from(_configs(name)))
+    cfgs = _configs(name)
+    if filt == "args_key":
+        cfgs = [c for c in cfgs if c["form"] == "args" and c["key"] >= 2]
+    c = draw(st.sampled_from(cfgs))
     kinds = G.HELPERS[name].args(c)
     n = draw(st.integers(4, 10))
     samples = [[draw(st.integers(0, (1 << _kw(k)) - 1)) for k in kinds] for _ in range(n)] if kinds else []
@@ -105,7 +114,7 @@ def _case(draw, names):
 
 
 def strategy(shard):
-    return _case([shard["helper"]])
+    return _case(shard["helper"].split(","), shard.get("filter"))
 
 
 def enumerate(shard):
